@@ -283,7 +283,10 @@ def _yaml_load(file: TextIO) -> Union[_ConfigNodeV3, _MapNode]:
     # YAML -> Python
     try:
         return yaml.load(file, Loader=Loader)
-    except (yaml.YAMLError, OSError, IOError) as exc:
+    except (yaml.YAMLError, OSError, IOError, TypeError, ValueError) as exc:
+        # `TypeError`: unhashable mapping key (complex key);
+        # `ValueError`: invalid node for an explicit tag, or file
+        # which is not valid UTF-8 (`UnicodeDecodeError`)
         raise _ConfigurationParseError('YAML loader', f'Cannot load file: {exc}')
 
 
